@@ -32,14 +32,15 @@ func drawStr(t *rapid.T, label, first, rest string, min, max int) string {
 
 func num(t *rapid.T, label string, max int) string {
 	// small numbers mostly, sometimes large, never with a leading zero
-	if rapid.IntRange(0, 9).Draw(t, label+"_big") == 0 {
+	if rapid.IntRange(0, 9).Draw(t, label+"_big") == 9 {
 		return strconv.Itoa(rapid.IntRange(0, 20240101).Draw(t, label))
 	}
 	return strconv.Itoa(rapid.IntRange(0, max).Draw(t, label))
 }
 
 func coin(t *rapid.T, label string, oneIn int) bool {
-	return rapid.IntRange(0, oneIn-1).Draw(t, label) == 0
+	// true is the rarer, "more featureful" outcome; rapid shrinks towards false
+	return rapid.IntRange(0, oneIn-1).Draw(t, label) == oneIn-1
 }
 
 func pickS(t *rapid.T, label string, s ...string) string {
@@ -573,7 +574,7 @@ func DrawRecords(t *rapid.T, format string, min, max int) []Record {
 		}
 		recs = append(recs, r)
 	}
-	if format == "gomod" && coin(t, "nogo", 5) == false {
+	if format == "gomod" && rapid.IntRange(0, 4).Draw(t, "godirective") > 0 {
 		g := Record{Name: "go", Version: "1." + strconv.Itoa(rapid.IntRange(12, 24).Draw(t, "gominor")), Attrs: map[string]string{"kind": "go"}}
 		if coin(t, "gopatch", 2) {
 			g.Version += "." + strconv.Itoa(rapid.IntRange(0, 9).Draw(t, "gopatchn"))
@@ -677,7 +678,7 @@ func DrawLayout(t *rapid.T, format string, n int) Layout {
 	if c.ShuffleSections {
 		l.ShuffleSections = coin(t, "shufflesections", 3)
 	}
-	if coin(t, "choices?", 4) == false {
+	if rapid.IntRange(0, 3).Draw(t, "choices?") > 0 {
 		l.Choices = rapid.SliceOfN(rapid.Byte(), 1, 24).Draw(t, "choices")
 	}
 	return l
